@@ -90,7 +90,7 @@ func (g *shapeGen) genStruct(name string, depthLeft int, minFields int) {
 	var fields []Field
 	for i := 0; i < n; i++ {
 		kind := "plain"
-		if depthLeft > 0 {
+		if depthLeft > 0 && g.nextID < 9 { // at most ten struct types per shape: readable findings, bounded compile time
 			k := rapid.IntRange(0, 19).Draw(g.t, "kind")
 			if g.nestedBias {
 				switch {
